@@ -64,6 +64,11 @@ Rounds(it) == IF IsHCT(PP) THEN it - 1 ELSE it
 CountsOK(FF, it) == IF PP.algo = "THOO" THEN FF[1][1] = Rounds(it)
                     ELSE FoldLeft(LAMBDA a, x : a + x[1], 0, FF) = Rounds(it)
 
+\* VHCT: the variance code carries +-1/2 unit, i.e. up to 1/16 of the variance at its floor 1e-3;
+\* the Bernstein width inherits half of that relative error
+TolU(s, c, k) == IF PP.algo = "VHCT" /\ s.cnt[c] > 0
+                 THEN Tol + ISqrt((2 * s.var[c] * PP.c2ls[k + 1]) \div s.cnt[c]) \div 16 ELSE Tol
+
 RecvCheck(e, e0) ==
   LET r    == e.r
       k    == Epoch(iter)
@@ -84,7 +89,7 @@ RecvCheck(e, e0) ==
   ELSE IF ~(\A c \in Cells(T) \ cs : F1[c][5] = F[c][5]) THEN "stats.mean-foreign"
   ELSE IF PP.algo = "VHCT" /\ ~(\A c \in cs : AbsI(F1[c][8] - VarFx(PP, st1, c)) <= PP.tolv) THEN "stats.variance"
   ELSE IF PP.algo = "VHCT" /\ ~(\A c \in Cells(T) \ cs : F1[c][8] = F[c][8]) THEN "stats.variance-foreign"
-  ELSE IF ~(\A c \in tch : Close(st1.U[c], UVal(PP, st1, c, k), Tol)) THEN "index.U"          \* C05: published index
+  ELSE IF ~(\A c \in tch : Close(st1.U[c], UVal(PP, st1, c, k), TolU(st1, c, k))) THEN "index.U"          \* C05: published index
   ELSE IF ~(\A c \in Cells(T) \ tch : st1.U[c] = st0.U[c]) THEN "index.U-stale"
   ELSE IF ~BLaw(st1) THEN "index.B"                                                      \* C05: B-law on every cell
   ELSE IF grown # want THEN (IF grown = <<>> THEN "grow.missing" ELSE IF want = <<>> THEN "grow.unexpected" ELSE "grow.wrong-cell")   \* C06
